@@ -537,7 +537,10 @@ func (r *Run) runHandlerOps(ctx context.Context, stream grpc.ServerStream) {
 			go func() {
 				<-r.handlerDone
 				var err error
+				// it is still a send attempt of the handler side: logged as such
+				r.rec(Event{Who: "h", Op: "send", Call: true, Msg: msg})
 				pan := guard(func() { err = stream.SendMsg(msg) })
+				r.rec(Event{Who: "h", Op: "send", Msg: msg, Err: err, Pan: pan})
 				r.rec(Event{Who: "hg", Op: "late-send", Err: err, Pan: pan})
 				pan = guard(func() { stream.SetTrailer(metadata.MD{"late": {"x"}}); err = stream.SetHeader(metadata.MD{"late": {"y"}}) })
 				r.rec(Event{Who: "hg", Op: "late-meta", Err: err, Pan: pan})
